@@ -246,7 +246,7 @@ func verify(fatalf func(string, ...any), s scenario, up http.Header, upHost stri
 			fatalf("Forwarded sent by the client (%q) was replaced by %q\n%s", sentFwd, gotFwd, ctx)
 		}
 	} else {
-		if !strings.Contains(gotFwd, "for="+peer) {
+		if !strings.Contains(gotFwd, "for="+peer) && !strings.Contains(gotFwd, `for="[`+peer+`]`) && !strings.Contains(gotFwd, `for="`+peer+`"`) {
 			fatalf("Forwarded = %q does not name the peer %s\n%s", gotFwd, peer, ctx)
 		}
 		p, ok := fwdProto(gotFwd)
